@@ -139,35 +139,43 @@ func (c *Ctx) errorSpec() TaintSpec {
 			return false
 		},
 		CleanAt: func(v ssa.Value, use ssa.Instruction) bool {
-			for i := 0; i < 3; i++ {
-				if c.tagExcludedAt(v, errTag, use.Block()) {
+			// clean(v, conds): v is known not to be an error under the facts `conds` (what controls the place it is
+			// used at, or the edge it comes in by)
+			var clean func(v ssa.Value, excluded func(x ssa.Value) bool, depth int) bool
+			clean = func(v ssa.Value, excluded func(x ssa.Value) bool, depth int) bool {
+				if depth > 4 {
+					return false
+				}
+				if excluded(v) {
 					return true
 				}
-				// a merge whose every incoming value is no error on its own edge (the error replaced by
-				// something made from it on the other one: catch)
-				if phi, ok := v.(*ssa.Phi); ok {
-					for e, ev := range phi.Edges {
-						if mi, ok := ev.(*ssa.MakeInterface); ok && !types.Identical(mi.X.Type(), errT) {
-							continue
-						}
-						if !c.tagExcludedOnEdge(ev, errTag, phi.Block().Preds[e], phi.Block()) {
+				switch x := v.(type) {
+				case *ssa.MakeInterface:
+					return !types.Identical(x.X.Type(), errT)
+				case *ssa.Phi:
+					// a merge whose every incoming value is no error on its own edge (the error replaced by something
+					// made from it on the other one: catch)
+					for e, ev := range x.Edges {
+						pred, succ := x.Block().Preds[e], x.Block()
+						if !clean(ev, func(y ssa.Value) bool { return c.tagExcludedOnEdge(y, errTag, pred, succ) }, depth+1) {
 							return false
 						}
 					}
-					return true
+					return len(x.Edges) > 0
+				case *ssa.Call:
+					// object.Value(x) / CopyRegister(x) keep the tag of x unless x is a register/reference
+					if calleeObj(x) == nil || len(x.Common().Args) != 1 {
+						return false
+					}
+					if n := calleeObj(x).Name(); n != "Value" && n != "CopyRegister" {
+						return false
+					}
+					blk := x.Block()
+					return clean(x.Common().Args[0], func(y ssa.Value) bool { return excluded(y) || c.tagExcludedAt(y, errTag, blk) }, depth+1)
 				}
-				// object.Value(x) / CopyRegister(x) keep the tag of x unless x is a register/reference
-				call, ok := v.(*ssa.Call)
-				if !ok || calleeObj(call) == nil || len(call.Common().Args) != 1 {
-					return false
-				}
-				n := calleeObj(call).Name()
-				if n != "Value" && n != "CopyRegister" {
-					return false
-				}
-				v = call.Common().Args[0]
+				return false
 			}
-			return false
+			return clean(v, func(y ssa.Value) bool { return c.tagExcludedAt(y, errTag, use.Block()) }, 0)
 		},
 	}
 }
